@@ -32,7 +32,7 @@ Definition auto_returns (ps : list rproc) : list nat :=
 Definition candidates (s : cstate) : list cev :=
   let np := seq 0 (length (r_procs (inner s))) in
   let nc := seq 0 (length (c_procs s)) in
-  [CSetup; CInner RSpawn] ++
+  [CSetupLen; CSetup; CInner RSpawn] ++
   map (fun i => CInner (RRunnerReturn i)) (auto_returns (r_procs (inner s))) ++
   map (fun i => CInner (RCollect i)) np ++
   [CInner RRunReturn; CClosing] ++ map CCloserStart nc ++
